@@ -57,6 +57,10 @@ func role(e paths.Event, v ssa.Value) string {
 		return fmt.Sprintf("%s#%d", role(e, x.Tuple), x.Index)
 	case *ssa.MakeSlice:
 		return "make(" + role(e, x.Len) + ")"
+	case *ssa.MakeMap:
+		return "the-map"
+	case *ssa.Global:
+		return "global:" + x.Name()
 	case *ssa.Slice:
 		// make([]T, N) with constant N compiles to new [N]T; slice [:N]
 		if al, ok := x.X.(*ssa.Alloc); ok && x.Low == nil {
@@ -104,10 +108,11 @@ func callRole(e paths.Event, x *ssa.Call) string {
 			name = b.Name()
 		} else if c := x.Call.StaticCallee(); c != nil {
 			name = c.Name()
-			if c.Pkg != nil && c.Pkg.Pkg.Path() == "encoding/binary" && name == "Uint32" {
-				name = "be32"
+			if c.Pkg != nil && c.Pkg.Pkg.Path() == "encoding/binary" && (name == "Uint32" || name == "Uint16" || name == "Uint64") {
+				bits := strings.TrimPrefix(name, "Uint")
+				name = "be" + bits
 				if r := c.Signature.Recv(); r == nil || !strings.Contains(r.Type().String(), "bigEndian") {
-					name = "uint32-other-order"
+					name = "uint" + bits + "-other-order"
 				}
 			}
 		} else {
